@@ -488,8 +488,15 @@ func taintScan(p *Program, pkgs map[string]bool) []taintFinding {
 					if bo, ok := rr.(*ssa.BinOp); ok {
 						switch bo.Op {
 						case token.LSS, token.LEQ, token.GTR, token.GEQ, token.EQL, token.NEQ:
-							if _, isC := bo.Y.(*ssa.Const); isC {
-								checked = true
+							// the test has to tell n == 0 (input too short for the varint:
+							// a truncated encoding) from n > 0; `n < 0` alone lets a varint
+							// cut in the middle decode as value 0 with nothing consumed
+							if k, isC := ConstInt(bo.Y); isC {
+								switch {
+								case k == 0 && (bo.Op == token.LEQ || bo.Op == token.EQL || bo.Op == token.NEQ || bo.Op == token.GTR),
+									k == 1 && (bo.Op == token.LSS || bo.Op == token.GEQ):
+									checked = true
+								}
 							}
 						}
 					}
